@@ -1068,7 +1068,9 @@ def worker(idx, scenarios, scratch, outfile):
                 if sc['fam'] == 'cli' and sc.get('faults') and facts['left'] == 0 and facts['crashes'] != len(EXCS) * facts['prims']:
                     summary['unjudged'].append({'scenario': sc, 'err': 'crash points exercised %d, model has %d primitives x %d exceptions'
                                                 % (facts['crashes'], facts['prims'], len(EXCS)), 'log': ''})
-                if sc['fam'] == 'cli' and not variant and sc.get('ffwarn') and v['v'] == 'ok':
+                if sc['fam'] == 'cli' and not variant and sc.get('ffwarn') and v['v'] == 'ok' and '-merge' not in sc['opts']:
+                    # (not with -merge: merging molecules re-files the stored entries of the merged-in molecule, an observation
+                    # outside the listed properties, DESIGN 9.4 - the plan below does not describe that)
                     # the warnings the force field attaches to placements are stored on the molecules and emitted when the output is
                     # prepared: every one of them has to reach the counter the gate reads (one per placement, in every molecule)
                     got = (r['meta'].get('counts') or {}).get('model', 0)
